@@ -72,6 +72,7 @@ class Cfg(object):
         self.org_tree = 0  # 1 in n specs sets parent_team / parent_workplace links
         self.auto_nf = True  # automatic tasks bound to a component may be flagged need_facility
         self.default_names = 6  # 1 in n specs: workers, teams, workplaces, components all have their kind's default name
+        self.unit_time = 0  # 1 in n cold-started specs is simulated with unit_time 2 or 3 (only honoured by simcheck.Sim and C07/C15)
         self.extend_style = 6  # 1 in n specs is wired through the extend_* helpers instead of append_*
         for k, v in kw.items():
             if not hasattr(self, k):
@@ -356,6 +357,8 @@ def model_spec(draw, cfg):
                 wp["parent"] = draw(st.sampled_from([j for j in range(n_wps) if j != k]))
     if servable:
         make_servable(spec)
+    if _one_in(draw, cfg.unit_time):
+        spec["unit_time"] = draw(st.sampled_from([2, 3]))
     if _one_in(draw, cfg.warm):
         spec["warm"] = {"mode": draw(st.sampled_from(cfg.warm_modes)), "k": draw(st.integers(1, 3))}
     return spec
